@@ -625,14 +625,15 @@ pub fn parent_main(p: &PropDef, tier: Tier, seed: u64) -> i32 {
             None => new_viol.push(v.clone()),
         }
     }
-    let _ = std::fs::create_dir_all("/verif/replays");
+    let out_dir = std::env::var("KMC_OUT_DIR").unwrap_or_else(|_| "/verif".to_string());
+    let _ = std::fs::create_dir_all(format!("{out_dir}/replays"));
     let mut exit = 0;
     for (sig, what) in &known_hits {
         println!("KNOWN-FINDING: property={} {} [{}]", p.id, what, sig);
     }
     let mut reported = 0;
     for v in &new_viol {
-        let path = format!("/verif/replays/{}-{:016x}.json", p.id, crate::sim::hash_str(&v.signature));
+        let path = format!("{out_dir}/replays/{}-{:016x}.json", p.id, crate::sim::hash_str(&v.signature));
         let _ = std::fs::write(&path, serde_json::to_string_pretty(&v.to_json()).unwrap());
         // Replay twice in fresh processes before believing it (first few only).
         if reported < 3 {
@@ -735,9 +736,9 @@ pub fn parent_main(p: &PropDef, tier: Tier, seed: u64) -> i32 {
         "violations": new_viol.len(),
         "machinery_failures": machinery_fail,
     });
-    let _ = std::fs::create_dir_all("/verif/evidence");
+    let _ = std::fs::create_dir_all(format!("{out_dir}/evidence"));
     let _ = std::fs::write(
-        format!("/verif/evidence/{}.json", p.id),
+        format!("{out_dir}/evidence/{}.json", p.id),
         serde_json::to_string_pretty(&ev).unwrap() + "\n",
     );
     println!(
